@@ -3,10 +3,10 @@ package main
 // Typed random generator of well-formed expressions, with strata.
 
 import (
-	"sort"
 	"fmt"
 	"math"
 	"math/rand"
+	"sort"
 	"strings"
 	"sync"
 
@@ -231,6 +231,13 @@ func mkCustom() map[string]*CustomOp {
 			if err1 != nil || err2 != nil || v1 != int64(3) || v2 != int64(3) {
 				return nil, fmt.Errorf("nested evaluation on the same context gave %v/%v and %v/%v instead of 3", v1, err1, v2, err2)
 			}
+			// and a sub-rule whose own operand stack is deeper than the 8/16 allocation classes (40 pending operands)
+			deep := nestedDeepSubExpr()
+			v3, err3 := deep.Eval(c)
+			v4, err4 := deep.TryEval(c)
+			if err3 != nil || err4 != nil || v3 != int64(41) || v4 != int64(41) {
+				return nil, fmt.Errorf("nested deep evaluation on the same context gave %v/%v and %v/%v instead of 41", v3, err3, v4, err4)
+			}
 			return x + 3, nil
 		}})
 	m := map[string]*CustomOp{}
@@ -261,6 +268,24 @@ func nestedSubExpr() *eval.Expr {
 		nestedSub = e
 	})
 	return nestedSub
+}
+
+var (
+	nestedDeepOnce sync.Once
+	nestedDeep     *eval.Expr
+)
+
+// nestedDeepSubExpr: (+ 1 (+ 1 ... (+ 1 1))) with 40 pending operands, compiled without optimizations
+func nestedDeepSubExpr() *eval.Expr {
+	nestedDeepOnce.Do(func() {
+		src := strings.Repeat("(+ 1 ", 40) + "1" + strings.Repeat(")", 40)
+		e, err := eval.Compile(eval.NewConfig(eval.Optimizations(false)), src)
+		if err != nil {
+			panic(err)
+		}
+		nestedDeep = e
+	})
+	return nestedDeep
 }
 
 // names declared stateless in StatelessOperators ("sq" is declared but never registered)
@@ -914,8 +939,11 @@ func stratumByName(n string) *Stratum {
 func rightNested(r *rand.Rand, depth int, kind int) *Node {
 	var n *Node
 	switch kind {
-	case 0: // arithmetic: (+ i0 (+ i1 (+ ...)))
+	case 0: // arithmetic: (+ i0 (+ i1 (+ ...))), the innermost operand sometimes a rule that evaluates sub-rules on the same context
 		n = Var("i0", TInt)
+		if r.Intn(2) == 0 {
+			n = Op("cnest", TInt, n)
+		}
 		for i := 0; i < depth; i++ {
 			l := Lit(int64(i%7 - 3))
 			if i%3 == 0 {
